@@ -278,6 +278,17 @@ func runWire(t *testing.T, scAny any, trace bool) *Outcome {
 		for i := 0; i < len(sc.Clients)+1; i++ {
 			simrt.Recv("wire.wait", done)
 		}
+		// requests orphaned by a time-out may still be parked in a stalled backend call: let every
+		// stall elapse so that whatever they go on to do is in the call log that is judged
+		var maxStall time.Duration
+		for _, f := range sc.Stalls {
+			if f.Stall > maxStall {
+				maxStall = f.Stall
+			}
+		}
+		if maxStall > 0 {
+			simrt.Sleep(maxStall + 100*time.Millisecond)
+		}
 		// C08 / C09 over the backend call log
 		eras := cw.snapshot()
 		for _, c := range w.FS.CallsSince(seq0) {
